@@ -181,6 +181,22 @@ def run(tier):
         if cp.state != chunkParserStates.COMPLETE or cp.body != rb or bytes(rest) != wire[used:]:
             bad('decoder==reference', 'disagrees_with_reference_decoder', {'wire': wire[:80]},
                 {'body': cp.body[:40], 'want': rb[:40], 'rest': bytes(rest)[:20], 'want_rest': wire[used:][:20]}, klass=feats['class'])
+        # ... and when the same stream arrives in two reads, cut anywhere (all cuts are C03's job; this keeps
+        # the decoder/reference agreement independent of the one-piece special case)
+        for cut in range(1, len(wire)):
+            n += 1
+            try:
+                cp = ChunkParser()
+                r1 = bytes(cp.parse(memoryview(wire[:cut])))
+                r2 = bytes(cp.parse(memoryview(wire[cut:])))
+            except Exception as e:  # noqa
+                bad('decoder==reference', 'raised_on_two_reads', {'wire': wire[:80], 'cut': cut}, '%s: %s' % (type(e).__name__, e),
+                    klass=feats['class'])
+                break
+            if cp.state != chunkParserStates.COMPLETE or cp.body != rb or (r1 + r2) != wire[used:]:
+                bad('decoder==reference', 'disagrees_with_reference_decoder_on_two_reads', {'wire': wire[:80], 'cut': cut},
+                    {'body': cp.body[:40], 'want': rb[:40]}, klass=feats['class'])
+                break
     # ---- law 5: update_body respects framing and content-encoding
     for chunked, enc, kind, newbody in itertools.product((False, True), (None, b'gzip', b'br'), ('request', 'response'),
                                                          (b'', b'n', b'new-body', bytes(range(256)))):
